@@ -35,9 +35,11 @@ PROPS = {
     "C12": ("strings", ["default"], ALL_CFGS),
     "C13": ("lexer_rules", ["default"], ALL_CFGS),
     "C14": ("parse_cov", ["default"], ALL_CFGS),
+    "C15": ("config", ["default"], ALL_CFGS),
     "C16": ("orch", ["default"], ALL_CFGS),
     "C17": ("orch", ["default"], ALL_CFGS),
     "C18": ("orch", ["default"], ALL_CFGS),
+    "C19": ("config", ["default"], ALL_CFGS),
 }
 
 
